@@ -92,7 +92,8 @@ class AbstractTemplateEnginePlugin(object):
         a string.
         """
         if template_string is not None:
-            return self.template_class(template_string)
+            return self.template_class(template_string,
+                                       allow_exec=self.loader.allow_exec)
 
         if self.use_package_naming:
             divider = templatename.rfind('.')
